@@ -69,6 +69,9 @@ type Atk struct {
 	Target    *Sess
 }
 
+// NewAtk is newAtk for the swarm-level simulations (C04).
+func NewAtk(isInit bool) *Atk { return newAtk(isInit) }
+
 func newAtk(isInit bool) *Atk {
 	hs, err := noise.NewHandshakeState(noise.Config{Initiator: isInit, Pattern: noise.HandshakeNN, CipherSuite: atkSuite})
 	if err != nil {
